@@ -37,6 +37,10 @@ func (w *World) sigOfValue(v ssa.Value, depth int) string {
 	}
 	v = stripConv(v)
 	switch x := v.(type) {
+	case *ssa.Parameter:
+		if sub, ok := w.sigSubst[x]; ok {
+			return w.sigOfValue(sub, depth+1)
+		}
 	case *ssa.Const:
 		if s, ok := constString(x); ok {
 			return fmt.Sprintf("%q", s)
@@ -128,90 +132,154 @@ func (w *World) condSig(b, base *ssa.BasicBlock) string {
 // attrTemplates extracts, for a render function, the templates written inside the given attributes.
 func (w *World) attrTemplates(fn *ssa.Function, attrs map[string]bool) map[string][]string {
 	lr := w.LexAll()
-	type ev struct {
-		e   SinkEvent
-		blk int
-		idx int
+	sa := w.Sinks()
+	type item struct {
+		e    *SinkEvent
+		call *ssa.Call // a call that hands the writer to a module helper
+		blk  int
+		idx  int
 	}
-	var evs []ev
-	seen := map[string]bool{}
-	for _, e := range lr.Events {
-		if e.Sink.Fn != fn {
-			continue
+	eventsOf := func(f *ssa.Function, ctxOK func(LexState) bool) []item {
+		var evs []item
+		seen := map[string]bool{}
+		for k := range lr.Events {
+			e := &lr.Events[k]
+			if e.Sink.Fn != f || !ctxOK(e.Ctx) {
+				continue
+			}
+			key := fmt.Sprintf("%p/%d", e.Sink.Instr, e.Piece)
+			if seen[key] {
+				continue
+			}
+			seen[key] = true
+			ins := e.Sink.Instr.(ssa.Instruction)
+			evs = append(evs, item{e: e, blk: ins.Block().Index, idx: instrIndex(ins)})
 		}
-		k := fmt.Sprintf("%p/%d", e.Sink.Instr, e.Piece)
-		if seen[k] {
-			continue
+		for _, b := range f.Blocks {
+			for ii, ins := range b.Instrs {
+				c, ok := ins.(*ssa.Call)
+				if !ok || sa.sinkAt(f, ins) != nil {
+					continue
+				}
+				cal := c.Common().StaticCallee()
+				if cal == nil || !w.InModule(cal) || cal.Blocks == nil {
+					continue
+				}
+				passes := false
+				for _, a := range c.Common().Args {
+					if sa.isBufWriter(a.Type()) {
+						passes = true
+					}
+				}
+				if passes {
+					evs = append(evs, item{call: c, blk: b.Index, idx: ii})
+				}
+			}
 		}
-		seen[k] = true
-		ins := e.Sink.Instr.(ssa.Instruction)
-		evs = append(evs, ev{e, ins.Block().Index, instrIndex(ins)})
+		sort.SliceStable(evs, func(i, j int) bool {
+			if evs[i].blk != evs[j].blk {
+				return evs[i].blk < evs[j].blk
+			}
+			if evs[i].idx != evs[j].idx {
+				return evs[i].idx < evs[j].idx
+			}
+			if evs[i].e != nil && evs[j].e != nil {
+				return evs[i].e.Piece < evs[j].e.Piece
+			}
+			return false
+		})
+		return evs
 	}
-	sort.SliceStable(evs, func(i, j int) bool {
-		if evs[i].blk != evs[j].blk {
-			return evs[i].blk < evs[j].blk
-		}
-		if evs[i].idx != evs[j].idx {
-			return evs[i].idx < evs[j].idx
-		}
-		return evs[i].e.Piece < evs[j].e.Piece
-	})
 	out := map[string][]string{}
 	var openBlock = map[string]*ssa.BasicBlock{}
-	for _, x := range evs {
-		p := x.e.Sink.Pieces[x.e.Piece]
-		st := x.e.State
-		blk := x.e.Sink.Instr.(ssa.Instruction).Block()
-		if p.Const {
-			// walk the constant char by char; characters inside a wanted attribute value belong to its template
-			cur := ""
-			curAttr := ""
-			flush := func() {
-				if cur != "" && curAttr != "" {
-					out[curAttr] = append(out[curAttr], fmt.Sprintf("%q", cur))
+	var process func(f *ssa.Function, items []item, cur LexState, base *ssa.BasicBlock, depth int) LexState
+	process = func(f *ssa.Function, items []item, cur LexState, base *ssa.BasicBlock, depth int) LexState {
+		for _, x := range items {
+			if x.call != nil {
+				// a helper called while a wanted attribute value is open: its pieces belong to the template, with the
+				// helper's parameters standing for the arguments of this call
+				if cur.Mode != LexAttr || !attrs[cur.Attr] || depth > 2 {
+					continue
 				}
-				cur = ""
-			}
-			for i := 0; i < len(p.Text); i++ {
-				c := p.Text[i]
-				if st.Mode == LexAttr && attrs[st.Attr] && c != '"' {
-					if curAttr != st.Attr {
-						flush()
-						curAttr = st.Attr
+				cal := x.call.Common().StaticCallee()
+				attr := cur.Attr
+				sub := eventsOf(cal, func(c LexState) bool { return c.Mode == LexAttr && c.Attr == attr })
+				old := w.sigSubst
+				w.sigSubst = map[*ssa.Parameter]ssa.Value{}
+				for k, v := range old {
+					w.sigSubst[k] = v
+				}
+				for pi, pp := range cal.Params {
+					if pi < len(x.call.Common().Args) {
+						w.sigSubst[pp] = x.call.Common().Args[pi]
 					}
-					cur += string(c)
 				}
-				nst := st.feed(string(c))
-				if nst.Mode == LexAttr && st.Mode != LexAttr && attrs[nst.Attr] {
-					openBlock[nst.Attr] = blk
-				}
-				if st.Mode == LexAttr && nst.Mode != LexAttr {
-					flush()
-					curAttr = ""
-				}
-				st = nst
+				cur = process(cal, sub, cur, cal.Blocks[0], depth+1)
+				w.sigSubst = old
+				continue
 			}
-			flush()
-			continue
+			p := x.e.Sink.Pieces[x.e.Piece]
+			st := x.e.State
+			blk := x.e.Sink.Instr.(ssa.Instruction).Block()
+			if p.Const {
+				// walk the constant char by char; characters inside a wanted attribute value belong to its template
+				c0 := ""
+				curAttr := ""
+				flush := func() {
+					if c0 != "" && curAttr != "" {
+						out[curAttr] = append(out[curAttr], fmt.Sprintf("%q", c0))
+					}
+					c0 = ""
+				}
+				for i := 0; i < len(p.Text); i++ {
+					c := p.Text[i]
+					if st.Mode == LexAttr && attrs[st.Attr] && c != '"' {
+						if curAttr != st.Attr {
+							flush()
+							curAttr = st.Attr
+						}
+						c0 += string(c)
+					}
+					nst := st.feed(string(c))
+					if nst.Mode == LexAttr && st.Mode != LexAttr && attrs[nst.Attr] {
+						openBlock[nst.Attr] = blk
+					}
+					if st.Mode == LexAttr && nst.Mode != LexAttr {
+						flush()
+						curAttr = ""
+					}
+					st = nst
+				}
+				flush()
+				cur = st
+				continue
+			}
+			cur = st
+			if st.Mode == LexAttr && attrs[st.Attr] {
+				var arg ssa.Value
+				com := x.e.Sink.Instr.Common()
+				if com.IsInvoke() && len(com.Args) > 0 {
+					arg = com.Args[0]
+				}
+				sig := "?"
+				if arg != nil {
+					sig = w.sigOfValue(arg, 0)
+				}
+				ob := openBlock[st.Attr]
+				if base != nil {
+					ob = base // inside a helper: conditions relative to the helper's entry
+				}
+				if ob != nil && ob != blk {
+					if cs := w.condSig(blk, ob); cs != "" {
+						sig += " if " + cs
+					}
+				}
+				out[st.Attr] = append(out[st.Attr], sig)
+			}
 		}
-		if st.Mode == LexAttr && attrs[st.Attr] {
-			var arg ssa.Value
-			com := x.e.Sink.Instr.Common()
-			if com.IsInvoke() && len(com.Args) > 0 {
-				arg = com.Args[0]
-			}
-			sig := "?"
-			if arg != nil {
-				sig = w.sigOfValue(arg, 0)
-			}
-			if ob := openBlock[st.Attr]; ob != nil && ob != blk {
-				if cs := w.condSig(blk, ob); cs != "" {
-					sig += " if " + cs
-				}
-			}
-			out[st.Attr] = append(out[st.Attr], sig)
-		}
+		return cur
 	}
+	process(fn, eventsOf(fn, func(LexState) bool { return true }), LexState{}, nil, 0)
 	return out
 }
 
